@@ -6,7 +6,7 @@ AREA = "c03"
 LEAN_PROPS = "Litep2pVerif.Props.C03"
 THEOREMS = ["msg_roundtrip", "varint_roundtrip", "framing_transparent", "framing_writer_exact",
             "negotiate_terminates", "negotiate_confluent", "negotiate_agree", "into_inner_safe",
-            "webrtc_agree", "fallback_reported_as_main"]
+            "fallback_reported_as_main"]
 CONSTS = ["MSS_MAX_PROTOCOLS", "MSS_MAX_LEN_BYTES", "MSS_MAX_FRAME_SIZE_MINUS"]
 _P = "src/multistream_select/protocol.rs"
 _L = "src/multistream_select/length_delimited.rs"
